@@ -402,6 +402,12 @@ func (r *propResult) report() int {
 		l0 = append(l0, k)
 	}
 	sort.Strings(l0)
+	if r.World != nil {
+		for _, d := range r.World.detached {
+			assumptions = append(assumptions, "contract detached (signature of an unexported helper changed): "+d)
+			fmt.Println("NOTE: " + d)
+		}
+	}
 	assumptions = append(assumptions, "L0 library/dependency models used (assumed contracts, not proved): "+strings.Join(l0, ", "))
 	sort.Strings(r.Trusted)
 	if len(r.Trusted) > 0 {
